@@ -57,7 +57,7 @@ def run(ctx):
         rep["how"] = "./check C08 --replay <this file>"
         ctx.violation(sig, "dbc.Write/dbc.Parse break C08: " + detail, rep, found_input=True)
     # (2) model vs implementation
-    if mism != 0 and not summ["fails"]:
+    if mism != 0:
         for what, lines in sorted(by_kind.items()):
             ctx.violation("c08-model-" + what, "the Coq model and the implementation disagree (%s, %d case(s)); the theorems of "
                           "Properties/C08.v no longer speak about this code; no document/text violating the property "
@@ -80,6 +80,7 @@ def run(ctx):
                 "non-trivial = distinct document text with >= 5 non-empty sections that round-trips, or distinct accepted "
                 "text with >= 20 tokens",
         "distribution": summ["hist"],
+        "identified_by_equivalence": summ.get("normdiff", {}),
         "model_mismatches": mism,
         "model_mismatch_kinds": {k: len(v) for k, v in by_kind.items()},
         "property_predicate_failures": [h[0] for h, _ in summ["fails"]],
@@ -97,6 +98,7 @@ def run(ctx):
     })
     ctx.assumptions = [
         "strconv.ParseFloat(strconv.FormatFloat(x,'f',-1,64)) == x for finite x, and that text has the shape -?digits[.digits] (hypotheses fmt_prs / fmt_shape of the theorems; exercised Go-against-Go by every document case)",
+        "strconv.ParseFloat returns a finite value whenever it returns no error, on number-token texts (hypothesis of parse_output_expressible / parse_write_parse; asserted on every number token of every case: LAWFAIL records)",
         "Go enum fields of the document hold declared constants; slices hold no nil entries",
     ]
     if ctx.tier == "thorough":
